@@ -132,6 +132,8 @@ type Client struct {
 	// Held while the state is changed and while a keep-alive PINGREQ is
 	// sent, so that a sleeping or disconnected client never sends one.
 	stateLock sync.RWMutex
+	// The sleep duration announced to the gateway by the last DISCONNECT.
+	sleepDuration time.Duration
 }
 
 // NewClient sets up a new client according to the provided configuration.
